@@ -208,22 +208,26 @@ Fixpoint leaf_list_eqb (a b : list (cls * nat)) : bool :=
   end.
 
 (** one row of the exhaustive table: a raised failure and, per verdict (isinstance, issubclass on the
-    type, real except clause), the indices of the handlers that said yes.  Result: codes
-    kind * 10^6 + row * 10^3 + handler of every disagreeing pair *)
-Definition row := (nat * exc * (list nat * list nat * list nat))%type.
+    type, real except clause), what the implementation said for every handler of the table.  Result:
+    codes kind * 10^6 + row * 10^3 + handler of every disagreeing pair *)
+Definition row := (nat * exc * (list bool * list bool * list bool))%type.
 
-Definition diff_codes (kind row_ : nat) (model impl : list nat) (nh : nat) : list Z :=
-  flat_map (fun j => if Bool.eqb (existsb (Nat.eqb j) model) (existsb (Nat.eqb j) impl) then []
-                     else [(Z.of_nat kind * 1000000 + Z.of_nat row_ * 1000 + Z.of_nat j)%Z])
-           (seq 0 nh).
+Fixpoint diff_bools (kind row_ j : nat) (model impl : list bool) : list Z :=
+  match model, impl with
+  | m :: ms, i :: is_ =>
+      (if Bool.eqb m i then []
+       else [(Z.of_nat kind * 1000000 + Z.of_nat row_ * 1000 + Z.of_nat j)%Z])
+      ++ diff_bools kind row_ (S j) ms is_
+  | [], [] => []
+  | _, _ => [(-1)%Z]
+  end.
 
 Definition bad_row (sub : cls -> cls -> bool) (hs : list ty) (r : row) : list Z :=
   match r with
   | (i, e, (inst, subc, exct)) =>
-      let nh := length hs in
-      diff_codes 1 i (filter_idx (isinstance sub e) hs) inst nh
-      ++ diff_codes 2 i (filter_idx (issub sub (type_of e)) hs) subc nh
-      ++ diff_codes 3 i (filter_idx (except_catches sub e) hs) exct nh
+      diff_bools 1 i 0 (map (isinstance sub e) hs) inst
+      ++ diff_bools 2 i 0 (map (issub sub (type_of e)) hs) subc
+      ++ diff_bools 3 i 0 (map (except_catches sub e) hs) exct
   end.
 Definition bad_rows sub hs (rows : list row) : list Z := flat_map (bad_row sub hs) rows.
 
@@ -238,10 +242,10 @@ Definition bad_pair (sub : cls -> cls -> bool) (p : pair_case) : bool :=
 Definition bad_pairs sub (l : list pair_case) : list nat := filter_idx (bad_pair sub) l.
 
 (** identity table: classes with the number of the first identical class object in the table *)
-Definition bad_ident (tys : list (ty * nat)) : list Z :=
+Definition bad_ident (tys : list (ty * Z)) : list Z :=
   flat_map (fun '(i, (a, ia)) =>
     flat_map (fun '(j, (b, ib)) =>
-      if Bool.eqb (same a b) (Nat.eqb ia ib) then [] else [(Z.of_nat i * 10000 + Z.of_nat j)%Z])
+      if Bool.eqb (same a b) (Z.eqb ia ib) then [] else [(Z.of_nat i * 10000 + Z.of_nat j)%Z])
       (combine (seq 0 (length tys)) tys))
     (combine (seq 0 (length tys)) tys).
 
